@@ -1,3 +1,236 @@
+import PB.Model.StopProto
 import PB.Drv.Loop
-/- Driver stub for C05 (model not built yet): every op is rejected. -/
-def main : IO Unit := PB.Drv.lineLoop (fun _ => "bad-op")
+/-!
+Driver for C05: trace acceptor. A case is
+
+    scn n=<modules> deps=<d0;d1;…> <scenario json (ignored here)>
+    e <mod> <act> [args…] g<goroutine> @<µs>      one atomic protocol event recorded on the real code
+    p stopBegin | stopEnd | startBegin | startEnd   manager pass events
+    h …                                             harness-level observation (no model step)
+    x <e|p line>  …  xend                           a deliberately corrupted trace: must be rejected somewhere
+
+Every `e`/`p` line is replayed through `PB.StopProto.sstep`; besides the counter-abstracted model (which checks
+that *some* thread can take the step) the driver checks each goroutine's own program order: a `dec` must match an
+`inc` of the same goroutine and kind, the steps of `checkIfStopComplete` must be taken in order by a goroutine that
+has a check pending.
+-/
+namespace PB.Drv.C05
+open PB.StopProto
+
+structure ItemRec where
+  gid : Nat
+  mod : Nat
+  kind : Kind
+  isNew : Bool
+
+structure ChkRec where
+  gid : Nat
+  mod : Nat
+  pos : Nat
+
+structure DS where
+  sys : Sys
+  items : List ItemRec
+  chks : List ChkRec
+  bad : Option String      -- sticky: first rejection
+  ready : Bool
+
+def DS.init : DS := { sys := Sys.init 0 [], items := [], chks := [], bad := none, ready := false }
+
+def parseNatList (s : String) : Option (List Nat) :=
+  if s = "-" || s = "" then some [] else
+  (s.splitOn ",").foldr (fun w acc => match w.toNat?, acc with
+    | some k, some l => some (k :: l)
+    | _, _ => none) (some [])
+
+def parseDeps (s : String) : Option (List (List Nat)) :=
+  (s.splitOn ";").foldr (fun w acc => match parseNatList w, acc with
+    | some k, some l => some (k :: l)
+    | _, _ => none) (some [])
+
+def parseKind : String → Option Kind
+  | "w" => some .w | "t" => some .t | "m" => some .m | _ => none
+
+def parseBool : String → Option Bool
+  | "1" => some true | "0" => some false | _ => none
+
+def isGid (w : String) : Bool :=
+  w.length ≥ 2 && w.front == 'g' && (w.drop 1).toString.all Char.isDigit
+
+/-- split an event's words into (payload words, goroutine id) -/
+def splitGid (ws : List String) : List String × Nat :=
+  let ws := ws.filter (fun w => !(w.startsWith "@"))
+  match ws.reverse with
+  | g :: rest => if isGid g then (rest.reverse, (g.drop 1).toString.toNat!) else (ws, 0)
+  | [] => ([], 0)
+
+/-- remove the most recent item record of this goroutine / module / kind -/
+def takeItem (g i : Nat) (k : Kind) : List ItemRec → Option (Bool × List ItemRec)
+  | [] => none
+  | r :: rs =>
+    if r.gid = g ∧ r.mod = i ∧ r.kind = k then some (r.isNew, rs)
+    else match takeItem g i k rs with
+      | some (b, rs') => some (b, r :: rs')
+      | none => none
+
+def findChk (g i : Nat) (pos : Nat) : List ChkRec → Bool
+  | [] => false
+  | r :: rs => (r.gid = g ∧ r.mod = i ∧ r.pos = pos) || findChk g i pos rs
+
+/-- move one check record of this goroutine from `pos` to `pos'` (`none` = the check ends) -/
+def moveChk (g i pos : Nat) (pos' : Option Nat) : List ChkRec → List ChkRec
+  | [] => []
+  | r :: rs =>
+    if r.gid = g ∧ r.mod = i ∧ r.pos = pos then
+      match pos' with
+      | some p => { r with pos := p } :: rs
+      | none => rs
+    else r :: moveChk g i pos pos' rs
+
+/-- program order of one goroutine inside `checkIfStopComplete`: (position before, position after; `none` = left).
+    0 pending, 1 fast path passed, 2 lock held, 3 flag read, 4 ctrl read, 5 workers read, 6 tasks read,
+    7 microtasks read, 8 CAS won, 9 done (about to unlock). -/
+def checkPos : Act → Option (Nat × Option Nat)
+  | .cFast true => some (0, some 1) | .cFast false => some (0, none)
+  | .cLock => some (1, some 2)
+  | .cFlag true => some (2, some 3) | .cFlag false => some (2, some 9)
+  | .cCtrl true => some (3, some 4) | .cCtrl false => some (3, some 9)
+  | .cW true => some (4, some 5) | .cW false => some (4, some 9)
+  | .cT true => some (5, some 6) | .cT false => some (5, some 9)
+  | .cM true => some (6, some 7) | .cM false => some (6, some 9)
+  | .cCas true => some (7, some 8) | .cCas false => some (7, some 9)
+  | .cClose => some (8, some 9)
+  | .cUnlock => some (9, none)
+  | _ => none
+
+def modFlag (S : Sys) (i : Nat) : Nat := (S.mods.getD i PB.StopProto.init).flag
+
+/-- one `e` event -/
+def doEvent (d : DS) (i : Nat) (act : String) (args : List String) (g : Nat) : Except String DS := do
+  let stepSys (a : Act) : Except String Sys :=
+    match sstep d.sys (.mod i a) with
+    | some S' => .ok S'
+    | none => .error s!"{act}: not enabled"
+  match act, args with
+  | "inc", k :: _ =>
+    match parseKind k with
+    | none => .error "inc: bad kind"
+    | some kd =>
+      let isNew := modFlag d.sys i == 1
+      let S' ← stepSys (.inc kd)
+      pure { d with sys := S', items := { gid := g, mod := i, kind := kd, isNew := isNew } :: d.items }
+  | "dec", k :: _ =>
+    match parseKind k with
+    | none => .error "dec: bad kind"
+    | some kd =>
+      match takeItem g i kd d.items with
+      | none => .error "dec: no matching inc by this goroutine"
+      | some (isNew, items') =>
+        let S' ← stepSys (.dec kd (!isNew))
+        pure { d with sys := S', items := items', chks := { gid := g, mod := i, pos := 0 } :: d.chks }
+  | "sFlag", _ =>
+    let S' ← stepSys .sFlag
+    pure { d with sys := S', items := d.items.map (fun r => if r.mod = i then { r with isNew := false } else r) }
+  | "ctrlUnset", _ =>
+    let S' ← stepSys .ctrlUnset
+    pure { d with sys := S', chks := { gid := g, mod := i, pos := 0 } :: d.chks }
+  | "ctrlUnsetNil", _ =>
+    let S' ← stepSys .ctrlUnsetNil
+    pure { d with sys := S', chks := { gid := g, mod := i, pos := 0 } :: d.chks }
+  | _, _ =>
+    let a? : Option Act :=
+      match act, args with
+      | "startBegin", _ => some .startBegin
+      | "ctrlSet", _ => some .ctrlSet
+      | "fnEnter", c :: _ => (parseBool c).map .fnEnter
+      | "fnExit", _ => some .fnExit
+      | "online", _ => some .online
+      | "stopBegin", _ => some .stopBegin
+      | "sCtrl", _ => some .sCtrl
+      | "sCancel", _ => some .sCancel
+      | "sWake", _ => some .sWake
+      | "sTimeout", _ => some .sTimeout
+      | "sOffline", _ => some .sOffline
+      | "sReport", _ => some .sReport
+      | "workEnter", c :: _ => (parseBool c).map .workEnter
+      | "gate", c :: _ => (parseBool c).map .gate
+      | "cFast", c :: _ => (parseBool c).map .cFast
+      | "cLock", _ => some .cLock
+      | "cUnlock", _ => some .cUnlock
+      | "cFlag", c :: _ => (parseBool c).map .cFlag
+      | "cCtrl", c :: _ => (parseBool c).map .cCtrl
+      | "cW", c :: _ => (parseBool c).map .cW
+      | "cT", c :: _ => (parseBool c).map .cT
+      | "cM", c :: _ => (parseBool c).map .cM
+      | "cCas", c :: _ => (parseBool c).map .cCas
+      | "cClose", _ => some .cClose
+      | _, _ => none
+    match a? with
+    | none => .error s!"bad-op {act}"
+    | some a =>
+      match checkPos a with
+      | some (pos, pos') =>
+        if findChk g i pos d.chks then do
+          let S' ← stepSys a
+          pure { d with sys := S', chks := moveChk g i pos pos' d.chks }
+        else .error s!"{act}: this goroutine has no check at position {pos}"
+      | none => do
+        let S' ← stepSys a
+        pure { d with sys := S' }
+
+def doPass (d : DS) (w : String) : Except String DS :=
+  let a? : Option SAct := match w with
+    | "stopBegin" => some (.passBegin true)
+    | "startBegin" => some (.passBegin false)
+    | "stopEnd" => some .passEnd
+    | "startEnd" => some .passEnd
+    | _ => none
+  match a? with
+  | none => .error "bad-op pass"
+  | some a =>
+    -- the pass-end event must match the kind of pass that is open
+    if (w = "stopEnd" ∧ d.sys.mode ≠ 1) ∨ (w = "startEnd" ∧ d.sys.mode ≠ 2) then .error s!"p {w}: no such pass open"
+    else match sstep d.sys a with
+      | some S' => .ok { d with sys := S' }
+      | none => .error s!"p {w}: not enabled (reports {d.sys.reportCnt} of {d.sys.execCnt})"
+
+def doLine (d : DS) (ws : List String) : Except String DS :=
+  match ws with
+  | "e" :: i :: act :: rest =>
+    match i.toNat? with
+    | none => .error "bad-op module"
+    | some i =>
+      let (args, g) := splitGid rest
+      doEvent d i act args g
+  | "p" :: w :: _ => doPass d w
+  | _ => .error "bad-op"
+
+def handle (d : DS) (line : String) : DS × String :=
+  let ws := PB.Drv.words line
+  match ws with
+  | "scn" :: n :: deps :: _ =>
+    match (n.drop 2).toString.toNat?, parseDeps (deps.drop 5).toString with
+    | some k, some dl =>
+      if n.startsWith "n=" ∧ deps.startsWith "deps=" ∧ dl.length = k then
+        ({ DS.init with sys := Sys.init k dl, ready := true }, "ok")
+      else (d, "bad-op scn")
+    | _, _ => (d, "bad-op scn")
+  | "h" :: _ => (d, "ok")
+  | "xend" :: _ => (d, if d.bad.isSome then "rejected" else "accepted")
+  | "x" :: rest =>
+    if d.bad.isSome then (d, "-") else
+    match doLine d rest with
+    | .ok d' => (d', "-")
+    | .error e => ({ d with bad := some e }, "-")
+  | _ =>
+    if !d.ready then (d, "bad-op no-scenario") else
+    match d.bad with
+    | some _ => (d, "reject (after an earlier rejection)")
+    | none =>
+      match doLine d ws with
+      | .ok d' => (d', "ok")
+      | .error e => ({ d with bad := some e }, "reject " ++ e)
+
+end PB.Drv.C05
+
+def main : IO Unit := PB.Drv.runState PB.Drv.C05.DS.init PB.Drv.C05.handle
